@@ -410,6 +410,7 @@ def compare_states(ctx, M, model, cases, results):
             continue
         dim = r["dim"]
         sl = S["slices"][dim]
+        slm = S["slices_mat"][dim]
         if min(r["J"]) <= 0.05:
             ctx.note_case(None)
             continue
@@ -426,7 +427,7 @@ def compare_states(ctx, M, model, cases, results):
                 B[z] = D(0)
             W, dW, d2W = model.tables(L, params, Cm, A, B)
             dWs = [dW[i] for i in sl]
-            d2Ws = [d2W[i][j] for i in sl for j in sl]
+            d2Ws = [d2W[i][j] for i in slm for j in slm]
             errs = {"W": abs(float(W) - r["W"][p]) / max(abs(float(W)), max(abs(float(x)) for x in dW), 1e-300),
                     "dWde": relerr(dWs, r["dW"][p]), "d2Wde": relerr(d2Ws, flat(r["d2W"][p]))}
             for q, e in errs.items():
@@ -498,6 +499,36 @@ def search_law_defects(ctx, M, model, only=None):
                                                   T1=[float(x) for x in T1], T2=[float(x) for x in T2]),
                    "law": name, "mode": mode, "C_kelvin_mandel": Ckm, "params": p, "model_tabulated": tab, "model_true": ref}
             found.append(("%s:%s" % (mode, name), what, rep))
+    return found
+
+
+def confirm_2d(ctx, M, mism):
+    """correspondence mismatches the 3-D model search does not explain (e.g. the 1-D/2-D reduction):
+       evaluate the property's own predicate (derivative by central differences) on the real law
+       object in 2-D at the mismatching state; keep the candidates that reproduce."""
+    found, seen = [], set()
+    for m in mism:
+        cid, law, text, c, q = m
+        if law not in M["laws"] or c.get("dimreq") != 2 or q == "W":
+            continue
+        mode = "stress" if q == "dWde" else "tangent"
+        if (law, mode) in seen:
+            continue
+        seen.add((law, mode))
+        G = c["G"]
+        Fm = [[G[i][j] + (1.0 if i == j else 0.0) for j in range(3)] for i in range(3)]
+        Cm = [[sum(Fm[k][i] * Fm[k][j] for k in range(3)) for j in range(3)] for i in range(3)]
+        Ckm = [Cm[0][0], Cm[1][1], 1.0, 0.0, 0.0, 2 ** 0.5 * Cm[0][1]]
+        snippet = REPLAY_LAW % dict(law=law, params=c["params"], dim=2, mode=mode, Ckm=Ckm, tol=1e-5,
+                                    T1=c.get("T1", [1.0, 0.0, 0.0]), T2=c.get("T2", [0.0, 1.0, 0.0]))
+        path = os.path.join(ctx.build, "cand_%s_%s.py" % (law, mode))
+        open(path, "w").write(snippet)
+        rc, out, err = ctx.impl_python(path, timeout=300)
+        if rc == 1:
+            found.append(("%s2d:%s" % (mode, law),
+                          "%s (2-D): Compute_%s is not the derivative of Compute_%s at C (Kelvin-Mandel) = %s, parameters %s: %s"
+                          % (law, "dWde" if mode == "stress" else "d2Wde", "W" if mode == "stress" else "dWde", [round(x, 4) for x in Ckm], c["params"], out.strip().splitlines()[-1] if out.strip() else ""),
+                          {"replay_py": snippet, "law": law, "mode": mode, "dim": 2, "C_kelvin_mandel": Ckm}))
     return found
 
 
@@ -629,6 +660,10 @@ def run(ctx):
         found = search_law_defects(ctx, M, model, only=sorted(set(M["laws"]) & set(m[1] for m in mism)))
         for key, what, rep in found:
             ctx.violation(key, what, rep, True)
+        if not found:
+            found = confirm_2d(ctx, M, [m for m in mism if len(m) > 3])
+            for key, what, rep in found:
+                ctx.violation(key, what, rep, True)
         if not found:
             m = mism[0]
             ctx.violation("corr:laws:%s" % m[1], "implementation and translated formulas disagree: %s %s" % (m[0], m[2]),
